@@ -115,12 +115,14 @@ class Engine:
         self.violations, self.trouble = [], []
         self.distinct = set()
 
-    def run_child(self, script, inject=None, trace_path=None):
+    def run_child(self, script, inject=None, trace_path=None, inject2=None):
         cmd = [self.child]
         if inject is not None or trace_path is not None:
             cmd = ["strace", "-f", "-o", trace_path, "-e", "trace=" + TRACE_SET, "-xx", "-s", "200000"]
             if inject:
                 cmd += ["-e", "inject=" + inject]
+            if inject2:
+                cmd += ["-e", "inject=" + inject2]
             cmd += [self.child]
         r = subprocess.run(cmd, input=json.dumps(script).encode(), capture_output=True, timeout=120)
         outs = []
@@ -232,11 +234,18 @@ class Engine:
 
     # ---- one injected run ----
     def injected(self, case, rec, widx, kind, errno=None):
-        """kind: 'error' | 'kill'. widx: index into main-thread entries (within or at end of window)."""
+        """kind: 'error' | 'kill' | 'error2' (second-order: the fault is followed
+        by a failing clean-up unlink). widx: index into main-thread entries."""
         main = rec["main"]
         target = main[widx]
         name = target["name"]
         k = ordinal(main, widx)
+        second = None
+        if kind == "error2":
+            # the error path removes the temporary file: make that fail too
+            n_unlink = sum(1 for e in main[: rec["wb"]] if e["name"] == "unlinkat")
+            second = "unlinkat:error=EIO:when=%d" % (n_unlink + 1)
+            kind = "error"
         if kind == "error":
             inj = "%s:error=%s:when=%d" % (name, errno, k)
         else:
@@ -246,7 +255,9 @@ class Engine:
         try:
             self.prepare_cache(case, d)
             tp = os.path.join(d, "trace")
-            rc, outs, err = self.run_child(self.script(case, d), inject=inj, trace_path=tp)
+            rc, outs, err = self.run_child(self.script(case, d), inject=inj, trace_path=tp, inject2=second)
+            if second:
+                res["kind"] = "error+failed-cleanup"
             ttext = open(tp).read() if os.path.exists(tp) else ""
             mainpid, entries = parse_trace(ttext)
             m2 = [e for e in entries if e["pid"] == mainpid]
@@ -574,6 +585,9 @@ def run_stage(ck, b, prop, st, tier, seed, outdir):
                 if wi < rec["we"]:
                     for en in ERRNOS.get(e["name"], []):
                         jobs.append((case, wi, "error", en))
+                    if e["name"] in ("write", "fsync", "fchmod", "close", "renameat", "renameat2", "rename"):
+                        # second-order: the same failure, and the clean-up fails too
+                        jobs.append((case, wi, "error2", "EIO"))
     # injected runs (bounded by the budget)
     deadline = t0 + budget
     done = 0
